@@ -229,7 +229,13 @@ fn begin_event(p: &Prog, id: u64) -> (Value, Option<il::Function>) {
     let t = arch.translator();
     let opts = p.options();
     let entry = p.addr(p.entry) as u64;
-    let lifted = guard(|| t.translate_function_extended(&bk, entry, &opts));
+    let mut msg = String::new();
+    let lifted = guard(|| {
+        t.translate_function_extended(&bk, entry, &opts).map_err(|e| {
+            msg = format!("{}", e).chars().take(200).collect();
+            e
+        })
+    });
     match lifted {
         Outcome::Ok(f) => {
             ev["lift"] = json!({"ok": 0});
@@ -253,6 +259,7 @@ fn begin_event(p: &Prog, id: u64) -> (Value, Option<il::Function>) {
         }
         other => {
             ev["lift"] = other.json(|_| json!(0));
+            ev["liftmsg"] = json!(msg);
             (ev, None)
         }
     }
